@@ -11,6 +11,7 @@ import (
 	"sync"
 	"time"
 
+	"verif/ev"
 	"verif/kit"
 
 	lh "github.com/orbs-network/lean-helix-go"
@@ -18,6 +19,7 @@ import (
 	"github.com/orbs-network/lean-helix-go/services/messagesfactory"
 	"github.com/orbs-network/lean-helix-go/services/randomseed"
 	"github.com/orbs-network/lean-helix-go/spec/types/go/primitives"
+	"github.com/orbs-network/lean-helix-go/spec/types/go/protocol"
 )
 
 type safeComm struct {
@@ -43,11 +45,22 @@ func main() {
 		return messagesfactory.NewMessageFactory(kit.Instance, &kit.KeyManager{Me: c[i].ID}, c[i].ID, seed)
 	}
 	commits := 0
+	start := time.Now()
+	// a genuine proof of (1, "B1") by members 0, 2, 3: ValidateBlockConsensus then runs the quorum arithmetic
+	// concurrently with the worker's own vote counting
+	vblk := kit.NewBlock(1, "B1")
+	vhdr := &protocol.BlockRefBuilder{MessageType: protocol.LEAN_HELIX_COMMIT, InstanceId: kit.Instance, BlockHeight: 1, View: 0, BlockHash: kit.HashOf(vblk)}
+	var nodes []*protocol.SenderSignatureBuilder
+	for _, i := range []int{0, 2, 3} {
+		nodes = append(nodes, &protocol.SenderSignatureBuilder{MemberId: c[i].ID, Signature: kit.Sig("C", c[i].ID, 1, vhdr.Build().Raw())})
+	}
+	vproof := (&protocol.BlockProofBuilder{BlockRef: vhdr, Nodes: nodes, RandomSeedSignature: kit.MasterSeedSig(1, kit.SeedDigest(randomseed.RandomSeedToBytes(seed)))}).Build().Raw()
+	validated := 0
 	for it := 0; it < iters; it++ {
 		me := 1
 		var mu sync.Mutex
 		cfg := &interfaces.Config{InstanceId: kit.Instance, Communication: &safeComm{}, Membership: &kit.Membership{Me: c[me].ID, Committee: c},
-			BlockUtils: &kit.BlockUtils{Me: c[me].ID}, KeyManager: &kit.KeyManager{Me: c[me].ID}, ElectionTimeoutOnV0: time.Duration(1+it%5) * time.Millisecond}
+			BlockUtils: &kit.BlockUtils{Me: c[me].ID}, KeyManager: &kit.KeyManager{Me: c[me].ID}, ElectionTimeoutOnV0: time.Duration(2+it%9) * time.Millisecond}
 		ctx, cancel := context.WithCancel(context.Background())
 		m := lh.NewLeanHelix(cfg, func(ctx context.Context, b interfaces.Block, p []byte) error {
 			mu.Lock()
@@ -79,6 +92,9 @@ func main() {
 		}()
 		go func() {
 			defer wg.Done()
+			if it%3 != 0 {
+				return // two of three iterations run without a competing sync, so the commit path is exercised too
+			}
 			time.Sleep(time.Duration(it%7) * 100 * time.Microsecond)
 			m.UpdateState(ctx, kit.NewBlock(uint64(1+it%3), "S"), nil)
 		}()
@@ -87,6 +103,11 @@ func main() {
 			for k := 0; k < 20; k++ {
 				_ = m.State().HeightView()
 				m.ValidateBlockConsensus(ctx, blk, []byte{1, 2, 3}, nil, nil, k%2 == 0)
+				if m.ValidateBlockConsensus(ctx, vblk, vproof, nil, nil, k%2 == 0) == nil {
+					mu.Lock()
+					validated++
+					mu.Unlock()
+				}
 			}
 		}()
 		go func() {
@@ -102,5 +123,16 @@ func main() {
 		wg.Wait()
 		m.WaitUntilShutdown(context.Background())
 	}
-	fmt.Printf("racecheck: %d free-running iterations, %d commits, no data race reported\n", iters, commits)
+	e := ev.New("C13", os.Getenv("VERIF_TIER_NAME"))
+	if e.Tier != "thorough" {
+		e.Tier = "quick"
+	}
+	e.Coverage["evaluations"] = iters
+	e.Coverage["distinct_nontrivial"] = iters
+	e.Coverage["rule"] = "free-running -race pass (assumption check of E2, not a deciding step): real goroutines, real time; per iteration one node, four concurrent API threads (consensus traffic, UpdateState, State()/ValidateBlockConsensus readers incl. a genuine proof, cancellation at a varying delay). distinct_nontrivial = iterations (each has its own delays)"
+	e.Coverage["samples"] = []interface{}{fmt.Sprintf("%d iterations, %d commits, %d successful concurrent proof validations", iters, commits, validated)}
+	e.Coverage["exhaustive"] = false
+	e.Assumptions = []string{"the Go race detector reports only races that actually occur in the runs"}
+	e.Write(start)
+	fmt.Printf("racecheck: %d free-running iterations, %d commits, %d concurrent proof validations\n", iters, commits, validated)
 }
